@@ -24,6 +24,16 @@
      verify      ()                             files (in)      -> (status)            ()
      inspect     (full)                         files (in)      -> (status stats)      ()
      listfile    ()                             files (in)      -> (status (cid ...))  (arch)     [car list in out.txt]
+     list / root / inspect / detachlist take an optional trailing flag n1 = the archive comes through a PIPE on
+                 standard input (no file argument); list: (stdin verbose)
+     listunixfs  (blocks (rootvalue ...) (rootview ...))  files () -> (status (path ...))   (n1)
+                 the harness builds the UnixFS DAG of the root values (k_cli.go dagStore) into a CAR; the
+                 model works on the views (RunFs.v_uroot)
+     compilebad (kind n)                        files (in)      -> (1) when car compile over the damaged text of car debug
+                                                                   neither crashed nor reported success for an output
+                                                                   inspect --full rejects; (0 text) / (2 text) otherwise
+     debugcompile (stdin)                       files (in)      -> (status roots (block ...) length post)
+                 car debug -o p in; car compile -o out p; blocks sorted by CID
      outindep    (tname ...)                    files ()        -> (n1)   the harness ran a command the model does not
                  cover (create, extract, debug, compile) twice -- output path absent / pre-existing and
                  longer -- and reports 1 iff status and output bytes are identical (compile: the same blocks
@@ -36,7 +46,8 @@
    post = () when there is no output file or the command failed, else
           (status of `car inspect --full out`, status of `car verify out`). *)
 From Coq Require Import Strings.String.
-From GoCar Require Import Bytes Varint Cid Header Frame V2Header Scan Index Store Traversal Val CliCmds.
+From GoCar Require Import Bytes Varint Cid Header Frame V2Header Scan Index Store Traversal ExtractFs Val CliCmds.
+From GoCar Require RunFs.
 
 Definition is_t (v : val) (s : string) : bool :=
   match v with VT t => String.eqb t s | _ => false end.
@@ -120,7 +131,7 @@ Section Run.
       let '(ok, out) := out_or_pre pre (detach_index hdrdec f0) in
       VL [v_status ok; v_file out]
     else if is_t cmd "detachlist" then
-      let '(ok, es) := detach_list f0 in
+      let '(ok, es) := if vbool (vnth 0 flags) then detach_list_stdin f0 else detach_list f0 in
       VL [v_status ok; VL (map (fun e => VL [VB (fst e); VN (snd e)]) es)]
     else if is_t cmd "getblock" then
       match get_block hdrdec f0 (vB (vnth 0 flags)) with
@@ -128,15 +139,33 @@ Section Run.
       | Err _ => VL [v_status false; VB []]
       end
     else if is_t cmd "list" then
-      let '(ok, cs) := list_car hok hdrdec f0 in VL [v_status ok; v_cids cs]
+      let '(ok, cs) := if vbool (vnth 0 flags) then list_car_stdin true hok hdrdec f0 else list_car hok hdrdec f0 in
+      VL [v_status ok; v_cids cs]
+    else if is_t cmd "listunixfs" then
+      let '(ls, ok) := ulist_roots (map RunFs.v_uroot (vL (vnth 2 flags))) in
+      VL [v_status ok; VL (map VB ls)]
+    else if is_t cmd "debugcompile" then
+      match br_read_all hok hdrdec default_ropts f0 with
+      | Ok (_, roots, sc) =>
+        match s_end sc with
+        | EEof =>
+          let order := sort_blocks (first_occ (s_blocks sc)) in
+          let out := compile_out roots order in
+          VL [v_status true; v_cids roots; v_blocks order; VN (blen out); v_post true (Some out)]
+        | _ => VL [v_status false]
+        end
+      | Err _ => VL [v_status false]
+      end
     else if is_t cmd "listfile" then
       let '(ok, cs) := list_car hok hdrdec f0 in VL [v_status ok; v_cids cs]
+    else if is_t cmd "compilebad" then VL [VN 1]   (* the harness reports whether the invariant held *)
     else if is_t cmd "outindep" then
       (* car create goes through blockstore.OpenReadWrite, which tries to RESUME a non-empty file: over
          a file that is not the CAR it would write it refuses (exit 1) and leaves the file as it was *)
       VL [VN (if is_t (vnth 0 flags) "create" then 2 else 1)]
     else if is_t cmd "root" then
-      let '(ok, cs) := root_car hdrdec f0 in VL [v_status ok; v_cids cs]
+      let '(ok, cs) := if vbool (vnth 0 flags) then root_car_stdin true hdrdec f0 else root_car hdrdec f0 in
+      VL [v_status ok; v_cids cs]
     else if is_t cmd "concat" then
       let '(ok, out) := out_or_pre pre (concat_car hdrdec (vN (vnth 0 flags)) (map vB files)) in
       VL [v_status ok; v_file out; v_post ok out]
@@ -148,7 +177,7 @@ Section Run.
     else if is_t cmd "verify" then
       VL [v_status (res_ok (verify_car hok hdrdec f0))]
     else if is_t cmd "inspect" then
-      match inspect_car hok hdrdec (vbool (vnth 0 flags)) f0 with
+      match (if vbool (vnth 1 flags) then inspect_car_stdin f0 else inspect_car hok hdrdec (vbool (vnth 0 flags)) f0) with
       | Ok st => VL [v_status true; v_istats st]
       | Err _ => VL [v_status false; VL []]
       end
@@ -302,7 +331,8 @@ Definition prop_cli_with (hok : bytes -> bytes -> option bool) (hdrdec : bytes -
                   else regen_records_hb (a_hb a0) (a_blocks a0) in
       let want := map rec_entry recs in
       let got := map (fun e => (vB (vnth 0 e), vN (vnth 1 e))) (vL (vnth 1 obs)) in
-      if negb ok then fail2 "detach-exit-status" "detachlist"
+      if vbool (vnth 0 flags) then (if ok then fail2 "detach-exit-status" "detachlist-stdin" else VT "ok"%string)
+      else if negb ok then fail2 "detach-exit-status" "detachlist"
       else if (N.of_nat (length want) =? N.of_nat (length got)) &&
               forallb (fun e => existsb (entry_eqb e) got) want
       then VT "ok"%string else fail2 "detach-list" "detachlist"
@@ -336,17 +366,36 @@ Definition prop_cli_with (hok : bytes -> bytes -> option bool) (hdrdec : bytes -
              end
       end
     else if is_t cmd "list" then
-      if ok && cids_eqb (vcids (vnth 1 obs)) (map fst (a_blocks a0)) then VT "ok"%string
-      else fail2 "list-scan-order" "list"
+      (* through a pipe as from a file (CliCmds.list_car_stdin with the fix); (stdin verbose corrupt):
+         corrupt = one data byte of the described archive flipped -- the listing must fail *)
+      if vbool (vnth 2 flags) then
+        (if ok then fail2 "list-accepts-corrupt-block" "list-corrupt" else VT "ok"%string)
+      else if ok && cids_eqb (vcids (vnth 1 obs)) (map fst (a_blocks a0)) then VT "ok"%string
+      else fail2 "list-scan-order" (if vbool (vnth 0 flags) then "list-stdin" else "list")
+    else if is_t cmd "listunixfs" then
+      let '(ls, mok) := ulist_roots (map RunFs.v_uroot (vL (vnth 2 flags))) in
+      if Bool.eqb ok mok && cids_eqb (map vB (vL (vnth 1 obs))) ls then VT "ok"%string
+      else fail2 "list-unixfs-paths" "listunixfs"
+    else if is_t cmd "debugcompile" then
+      (* compile(debug(x)): the roots of x, every distinct CID of x once (any order), accepted by the checkers *)
+      let want := sort_blocks (first_occ (a_blocks a0)) in
+      if negb ok then fail2 "debug-compile-exit-status" "debugcompile"
+      else if negb (cids_eqb (vcids (vnth 1 obs)) (a_roots a0)) then fail2 "debug-compile-roots" "debugcompile"
+      else if negb (blks_eqb (vblocks (vnth 2 obs)) want) then fail2 "debug-compile-blocks" "debugcompile"
+      else closure_verdict "debugcompile" (vnth 4 obs) (a_roots a0) want
     else if is_t cmd "listfile" then
       if ok && cids_eqb (vcids (vnth 1 obs)) (map fst (a_blocks a0)) then VT "ok"%string
       else fail2 "list-scan-order" "listfile"
+    else if is_t cmd "compilebad" then
+      (* car compile over a damaged patch text: no crash; a reported success is an archive inspect --full accepts *)
+      if vN (vnth 0 obs) =? 1 then VT "ok"%string
+      else fail2 (if vN (vnth 0 obs) =? 0 then "compile-crash" else "compile-output-invalid") "compilebad"
     else if is_t cmd "outindep" then
       if (vN (vnth 0 obs) =? 1) || ((vN (vnth 0 obs) =? 2) && is_t (vnth 0 flags) "create")
       then VT "ok"%string else fail2 "output-depends-on-existing-file" "outindep"
     else if is_t cmd "root" then
       if ok && cids_eqb (vcids (vnth 1 obs)) (a_roots a0) then VT "ok"%string
-      else fail2 "root" "root"
+      else fail2 "root" (if vbool (vnth 0 flags) then "root-stdin" else "root")
     else if is_t cmd "getdag" then
       (* the blocks of the output = the first occurrences of what the reference walk loaded
          (--version 1: per CID; --version 2: per multihash, identity blocks dropped), root = the
